@@ -20,6 +20,7 @@ REQUIRED_BRANCHES = [
     "dmatchset-nonempty", "op:dsearch", "op:normrt",
     # multi-term queries (prefix / wildcard / regexp / fuzzy / term range): one part per DISTINCT matching term, also when >= 3 segments share the term
     "m-term-in-3plus-segments", "m-parts-ok", "m-multi-part", "m-prefix", "m-wildcard", "m-regexp", "m-fuzzy", "m-range", "mmatchset-nonempty", "op:msearch",
+    "fuzzy-boost-nonpositive-hit", "fuzzy-boost-nonpositive-part-positive-hit",   # fixed probe: fuzzy term no longer than the fuzziness (known finding fuzzy-term-boost-not-positive)
     "score-none-zero",                                # score mode "none": Score(0, 0) = 0 for b < 1 (and NaN for b = 1, branch score-none-nan: reported, outside 1 <= f)
 ]
 
@@ -67,6 +68,10 @@ def signature(rec):
         # a multi-term query (prefix / wildcard / regexp / fuzzy / term range) lists the SAME term's score part more than once in its
         # "sum of:" explanation (the field dictionary enumerated a term twice): one signature whatever else the line shows
         return "multi-term-query-duplicate-term-part"
+    if "score-not-positive:fuzzy-term-boost" in v[4:].split("+") and set(v[4:].split("+")) <= {"score-not-positive:fuzzy-term-boost", "explain-node:idf"}:
+        # a fuzzy query's hit scores <= 0 and the driver's own transcription of boostFromDistance (1 - distance/min(len)) gives a matching
+        # term a boost <= 0, with the parts exactly as modelled; any further failing check on the line is NOT this finding
+        return "fuzzy-term-boost-not-positive"
     toks = []
     for t in v[4:].split("+"):
         if t.startswith("parts:"):
